@@ -137,6 +137,29 @@ func runYConc(c Case) string {
 			}(g, i, j)
 		}
 	}
+	// runs in validation mode (type checks of function arguments, every function called is noted in a package-level
+	// table) next to the others: their results are not compared, their memory accesses are watched
+	for i := range jobs {
+		if machs[i] == nil {
+			continue
+		}
+		wg.Add(1)
+		go func(i int) {
+			defer wg.Done()
+			for k := 0; k < 3; k++ {
+				xpath.NewCtxFromCurrent(gocontext.Background(), machs[i], &mockEntry{t: &mockTree{hash: true}}).EnableValidation().Run()
+			}
+		}(i)
+	}
+	// a plugin function registered while expressions are compiled and run
+	wg.Add(1)
+	go func() {
+		defer wg.Done()
+		for k := 0; k < 3; k++ {
+			xpath.RegisterCustomFunctions([]xpath.CustomFunctionInfo{{Name: "yv-plugin-fn", FnPtr: func(args []xpath.Datum) xpath.Datum { return xpath.NewLiteralDatum("x") },
+				Args: []xpath.DatumTypeChecker{xpath.TypeIsLiteral}, RetType: xpath.TypeIsLiteral, DefaultRetVal: xpath.NewLiteralDatum("")}})
+		}
+	}()
 	for g := 0; g < 3; g++ {
 		wg.Add(1)
 		go func(g int) {
